@@ -1,4 +1,335 @@
 #!/venv/bin/python
-"""translator stub (filled in with C02)"""
-import sys
-sys.exit(0)
+"""Fail-closed translator: Python (ast) -> Gallina over the dynamic embedding DA.PyRT.pv.
+
+Reads the listed function definitions from /repo's *working tree* and (re)writes
+coq/Gen/*.v.  Anything outside the accepted subset raises Unsupported and the
+translator exits non-zero (the tie to the source is then broken, DESIGN 2.3/2.4).
+
+Accepted: def with positional/default-constant parameters; Return, Raise, Assign (name or
+tuple of names), AugAssign (+=, -=), If/elif/else with fall-through (join points), Pass,
+docstrings; BoolOp and/or (short-circuit, value-returning), not, unary -, + - *,
+comparisons < <= > >= == != is [not] None, in / not in, IfExp, constants, names, tuples,
+v[const], v[a:b:c] with constant bounds, attributes .size .dtype.kind, np.<ufunc> as a
+value, calls to functions of the same unit, to the NumPy vocabulary and to hand-modelled
+callees.
+"""
+import ast, os, sys, re
+
+VERIF = os.path.dirname(os.path.dirname(os.path.abspath(__file__)))
+REPO = os.environ.get('VERIF_REPO', '/repo')
+
+class Unsupported(Exception):
+    pass
+
+def fail(node, msg):
+    raise Unsupported('%s at line %s: %s' % (msg, getattr(node, 'lineno', '?'), ast.dump(node)[:200]))
+
+EXN = {'IndexError', 'ValueError', 'TypeError', 'KeyError', 'AssertionError', 'AttributeError'}
+NP_FUNVALS = {'greater', 'greater_equal', 'less', 'less_equal'}
+HAND = {  # hand-modelled callees: name -> (coq function, [(param, default_coq)])
+    'locate_one': ('h_locate_one', [('values', None), ('val', None), ('issorted', 'PBool false'),
+                                    ('tol', 'PNone'), ('side', 'PStr "left"')]),
+}
+
+def cq_str(s):
+    return '"' + s.replace('"', '""') + '"'
+
+def const(node, v):
+    if v is None: return 'PNone'
+    if v is True: return 'PBool true'
+    if v is False: return 'PBool false'
+    if isinstance(v, int): return 'PInt (%d)' % v
+    if isinstance(v, str): return 'PStr ' + cq_str(v)
+    fail(node, 'constant')
+
+class Unit:
+    """one translation unit = the functions of one output file"""
+    def __init__(self, funcs):
+        self.funcs = funcs            # name -> ast.FunctionDef
+        self.counter = 0
+        self.sigs = {n: self.signature(f) for n, f in funcs.items()}
+
+    def fresh(self, base='t'):
+        self.counter += 1
+        return '%s%d' % (base, self.counter)
+
+    def signature(self, f):
+        a = f.args
+        if a.vararg or a.kwarg or a.kwonlyargs or a.posonlyargs:
+            fail(f, 'signature')
+        names = [x.arg for x in a.args]
+        defaults = [None] * (len(names) - len(a.defaults))
+        for d in a.defaults:
+            if not isinstance(d, ast.Constant): fail(d, 'non-constant default')
+            defaults.append(const(d, d.value))
+        return list(zip(names, defaults))
+
+    # ------------------------------------------------------------ expressions : text of type res pv
+    def E(self, e, env):
+        if isinstance(e, ast.Constant):
+            return 'Ok (%s)' % const(e, e.value)
+        if isinstance(e, ast.Name):
+            if e.id in env: return 'Ok v_%s' % e.id
+            fail(e, 'unbound name')
+        if isinstance(e, ast.Tuple):
+            names, binds = [], ''
+            for x in e.elts:
+                t = self.fresh(); binds += 'let! %s := %s in ' % (t, self.E(x, env)); names.append(t)
+            return '(%sOk (PTuple [%s]))' % (binds, '; '.join(names))
+        if isinstance(e, ast.BoolOp):
+            vals = e.values
+            out = self.E(vals[-1], env)
+            for x in reversed(vals[:-1]):
+                t, b = self.fresh(), self.fresh('b')
+                if isinstance(e.op, ast.And):
+                    out = '(let! %s := %s in let! %s := truthy %s in if %s then %s else Ok %s)' % (t, self.E(x, env), b, t, b, out, t)
+                else:
+                    out = '(let! %s := %s in let! %s := truthy %s in if %s then Ok %s else %s)' % (t, self.E(x, env), b, t, b, t, out)
+            return out
+        if isinstance(e, ast.UnaryOp):
+            t = self.fresh()
+            if isinstance(e.op, ast.Not): return '(let! %s := %s in py_not %s)' % (t, self.E(e.operand, env), t)
+            if isinstance(e.op, ast.USub):
+                if isinstance(e.operand, ast.Constant) and isinstance(e.operand.value, int):
+                    return 'Ok (PInt (%d))' % (-e.operand.value)
+                return '(let! %s := %s in py_neg %s)' % (t, self.E(e.operand, env), t)
+            fail(e, 'unary op')
+        if isinstance(e, ast.BinOp):
+            ops = {ast.Add: 'AAdd', ast.Sub: 'ASub', ast.Mult: 'AMul'}
+            if type(e.op) not in ops: fail(e, 'binary op')
+            a, b = self.fresh(), self.fresh()
+            return '(let! %s := %s in let! %s := %s in py_arith %s %s %s)' % (a, self.E(e.left, env), b, self.E(e.right, env), ops[type(e.op)], a, b)
+        if isinstance(e, ast.Compare):
+            if len(e.ops) != 1: fail(e, 'chained comparison')
+            o, r = e.ops[0], e.comparators[0]
+            a = self.fresh()
+            if isinstance(o, (ast.Is, ast.IsNot)):
+                if not (isinstance(r, ast.Constant) and r.value is None): fail(e, 'is <non-None>')
+                neg = 'negb ' if isinstance(o, ast.IsNot) else ''
+                return '(let! %s := %s in Ok (PBool (%s(py_is_none %s))))' % (a, self.E(e.left, env), neg, a)
+            b = self.fresh()
+            if isinstance(o, (ast.In, ast.NotIn)):
+                core = 'py_in %s %s' % (a, b)
+                if isinstance(o, ast.NotIn):
+                    c = self.fresh(); core = 'let! %s := py_in %s %s in py_not %s' % (c, a, b, c)
+                return '(let! %s := %s in let! %s := %s in %s)' % (a, self.E(e.left, env), b, self.E(r, env), core)
+            ops = {ast.Lt: 'CLt', ast.LtE: 'CLe', ast.Gt: 'CGt', ast.GtE: 'CGe', ast.Eq: 'CEq', ast.NotEq: 'CNe'}
+            if type(o) not in ops: fail(e, 'comparison')
+            return '(let! %s := %s in let! %s := %s in py_cmp %s %s %s)' % (a, self.E(e.left, env), b, self.E(r, env), ops[type(o)], a, b)
+        if isinstance(e, ast.IfExp):
+            t, b = self.fresh(), self.fresh('b')
+            return '(let! %s := %s in let! %s := truthy %s in if %s then %s else %s)' % (t, self.E(e.test, env), b, t, b, self.E(e.body, env), self.E(e.orelse, env))
+        if isinstance(e, ast.Attribute):
+            # np.<ufunc> as a value
+            if isinstance(e.value, ast.Name) and e.value.id == 'np' and e.attr in NP_FUNVALS:
+                return 'Ok (PFun %s)' % cq_str(e.attr)
+            path, base = [e.attr], e.value
+            while isinstance(base, ast.Attribute):
+                path.insert(0, base.attr); base = base.value
+            name = '.'.join(path)
+            if name not in ('size', 'dtype.kind', 'dtype', 'kind'): fail(e, 'attribute')
+            if name == 'dtype': name = 'dtype.kind'      # a dtype is represented by its kind
+            t = self.fresh()
+            return '(let! %s := %s in py_attr %s %s)' % (t, self.E(base, env), t, cq_str(name))
+        if isinstance(e, ast.Subscript):
+            t = self.fresh()
+            s = e.slice
+            def cz(x):
+                if x is None: return 'None'
+                if isinstance(x, ast.Constant) and isinstance(x.value, int): return '(Some (%d)%%Z)' % x.value
+                if isinstance(x, ast.UnaryOp) and isinstance(x.op, ast.USub) and isinstance(x.operand, ast.Constant):
+                    return '(Some (%d)%%Z)' % (-x.operand.value)
+                fail(e, 'non-constant subscript')
+            if isinstance(s, ast.Slice):
+                return '(let! %s := %s in py_getslice %s %s %s %s)' % (t, self.E(e.value, env), t, cz(s.lower), cz(s.upper), cz(s.step))
+            c = cz(s)
+            return '(let! %s := %s in py_getitem %s %s)' % (t, self.E(e.value, env), t, c[6:-1])
+        if isinstance(e, ast.Call):
+            return self.call(e, env)
+        fail(e, 'expression')
+
+    def bind_args(self, node, sig, args, kwargs, env):
+        """resolve positional + keyword arguments against a signature; returns (binds, names)"""
+        vals = {}
+        if len(args) > len(sig): fail(node, 'too many arguments')
+        for (p, _), a in zip(sig, args): vals[p] = a
+        for k in kwargs:
+            if k.arg is None or k.arg not in [p for p, _ in sig] or k.arg in vals: fail(node, 'keyword argument')
+            vals[k.arg] = k.value
+        binds, names = '', []
+        for p, d in sig:
+            if p in vals:
+                t = self.fresh(); binds += 'let! %s := %s in ' % (t, self.E(vals[p], env)); names.append(t)
+            elif d is not None:
+                names.append('(%s)' % d)
+            else:
+                fail(node, 'missing argument ' + p)
+        return binds, names
+
+    def call(self, e, env):
+        f = e.func
+        if isinstance(f, ast.Name):
+            if f.id in self.funcs:
+                binds, names = self.bind_args(e, self.sigs[f.id], e.args, e.keywords, env)
+                return '(%sg_%s %s)' % (binds, f.id, ' '.join(names))
+            if f.id in HAND:
+                cf, sig = HAND[f.id]
+                binds, names = self.bind_args(e, sig, e.args, e.keywords, env)
+                return '(%s%s %s)' % (binds, cf, ' '.join(names))
+            if f.id in env:   # calling a function-valued parameter
+                if e.keywords: fail(e, 'keywords on dynamic call')
+                binds, names = '', []
+                for a in e.args:
+                    t = self.fresh(); binds += 'let! %s := %s in ' % (t, self.E(a, env)); names.append(t)
+                return '(%spy_call v_%s [%s])' % (binds, f.id, '; '.join(names))
+            fail(e, 'unknown callee')
+        if isinstance(f, ast.Attribute) and isinstance(f.value, ast.Name) and f.value.id == 'np':
+            if f.attr == 'searchsorted':
+                binds, names = self.bind_args(e, [('a', None), ('v', None), ('side', 'PStr "left"')], e.args, e.keywords, env)
+                return '(%snp_searchsorted %s)' % (binds, ' '.join(names))
+            if f.attr == 'asarray':
+                kw = {k.arg: k.value for k in e.keywords}
+                if len(e.args) == 1 and not kw:
+                    t = self.fresh(); return '(let! %s := %s in np_asarray %s)' % (t, self.E(e.args[0], env), t)
+                if len(e.args) == 1 and set(kw) == {'dtype'}:
+                    d = kw['dtype']
+                    if isinstance(d, ast.Name) and d.id in ('float', 'object', 'int'):
+                        k = {'float': 'KF', 'object': 'KO', 'int': 'KI'}[d.id]
+                    elif isinstance(d, ast.Constant) and d.value in ('U', 'S', 'O', 'f', 'i'):
+                        k = 'K' + d.value.upper()
+                    else: fail(e, 'dtype')
+                    t = self.fresh(); return '(let! %s := %s in np_asarray_dtype %s %s)' % (t, self.E(e.args[0], env), t, k)
+                fail(e, 'np.asarray form')
+            if f.attr == 'all' and len(e.args) == 1 and not e.keywords:
+                t = self.fresh(); return '(let! %s := %s in np_all %s)' % (t, self.E(e.args[0], env), t)
+        fail(e, 'call')
+
+    # ------------------------------------------------------------ statements
+    def assigned(self, stmts):
+        out = []
+        for s in stmts:
+            if isinstance(s, ast.Assign):
+                for t in s.targets:
+                    for n in (t.elts if isinstance(t, ast.Tuple) else [t]):
+                        if isinstance(n, ast.Name) and n.id not in out: out.append(n.id)
+            elif isinstance(s, ast.AugAssign) and isinstance(s.target, ast.Name):
+                if s.target.id not in out: out.append(s.target.id)
+            elif isinstance(s, ast.If):
+                for n in self.assigned(s.body) + self.assigned(s.orelse):
+                    if n not in out: out.append(n)
+        return out
+
+    def S(self, stmts, env, k):
+        """stmts followed by continuation text k (a function of env -> text)"""
+        if not stmts:
+            return k(env)
+        s, rest = stmts[0], stmts[1:]
+        if isinstance(s, ast.Expr) and isinstance(s.value, ast.Constant) and isinstance(s.value.value, str):
+            return self.S(rest, env, k)
+        if isinstance(s, ast.Pass):
+            return self.S(rest, env, k)
+        if isinstance(s, ast.Return):
+            return self.E(s.value, env) if s.value is not None else 'Ok PNone'
+        if isinstance(s, ast.Raise):
+            exc = s.exc
+            name = exc.func.id if isinstance(exc, ast.Call) and isinstance(exc.func, ast.Name) else (exc.id if isinstance(exc, ast.Name) else None)
+            if name not in EXN: fail(s, 'raise')
+            return 'Err %s' % name
+        if isinstance(s, ast.Assign):
+            if len(s.targets) != 1: fail(s, 'multiple targets')
+            t = s.targets[0]
+            if isinstance(t, ast.Name):
+                env2 = env | {t.id}
+                return '(let! v_%s := %s in\n %s)' % (t.id, self.E(s.value, env), self.S(rest, env2, k))
+            if isinstance(t, ast.Tuple) and all(isinstance(n, ast.Name) for n in t.elts) \
+                    and isinstance(s.value, ast.Tuple) and len(s.value.elts) == len(t.elts):
+                tmps = [self.fresh() for _ in t.elts]
+                binds = ''.join('let! %s := %s in ' % (tm, self.E(v, env)) for tm, v in zip(tmps, s.value.elts))
+                binds += ''.join('let v_%s := %s in ' % (n.id, tm) for n, tm in zip(t.elts, tmps))
+                env2 = env | {n.id for n in t.elts}
+                return '(%s\n %s)' % (binds, self.S(rest, env2, k))
+            fail(s, 'assignment target')
+        if isinstance(s, ast.AugAssign):
+            if not isinstance(s.target, ast.Name) or s.target.id not in env: fail(s, 'augassign target')
+            ops = {ast.Add: 'AAdd', ast.Sub: 'ASub'}
+            if type(s.op) not in ops: fail(s, 'augassign op')
+            t = self.fresh()
+            return '(let! %s := %s in let! v_%s := py_arith %s v_%s %s in\n %s)' % (
+                t, self.E(s.value, env), s.target.id, ops[type(s.op)], s.target.id, t, self.S(rest, env, k))
+        if isinstance(s, ast.If):
+            vs = self.assigned(s.body) + [n for n in self.assigned(s.orelse) if n not in self.assigned(s.body)]
+            t, b, j = self.fresh(), self.fresh('b'), self.fresh('join')
+            env_after = env | set(vs)
+            def kk(envb):
+                return '%s %s' % (j, ' '.join(('v_%s' % n) if n in envb else 'PNone' for n in vs)) if vs else '%s tt' % j
+            params = ' '.join('(v_%s : pv)' % n for n in vs) if vs else '(_ : unit)'
+            return ('(let %s := fun %s =>\n %s in\n let! %s := %s in let! %s := truthy %s in\n if %s then %s\n else %s)' % (
+                j, params, self.S(rest, env_after, k), t, self.E(s.test, env), b, t, b,
+                self.S(s.body, env, kk), self.S(s.orelse, env, kk)))
+        fail(s, 'statement')
+
+    def function(self, name):
+        f = self.funcs[name]
+        sig = self.sigs[name]
+        env = {p for p, _ in sig}
+        body = self.S(f.body, env, lambda env: 'Ok PNone')
+        params = ' '.join('(v_%s : pv)' % p for p, _ in sig)
+        return 'Definition g_%s %s : res pv :=\n %s.\n' % (name, params, body)
+
+    def order(self):
+        """callees first"""
+        deps = {n: {c.func.id for c in ast.walk(f) if isinstance(c, ast.Call) and isinstance(c.func, ast.Name) and c.func.id in self.funcs}
+                for n, f in self.funcs.items()}
+        out = []
+        def visit(n, stack=()):
+            if n in out: return
+            if n in stack: fail(self.funcs[n], 'recursion')
+            for d in sorted(deps[n]): visit(d, stack + (n,))
+            out.append(n)
+        for n in self.funcs: visit(n)
+        return out
+
+def load_functions(path, names, cls=None):
+    tree = ast.parse(open(path).read())
+    body = tree.body
+    if cls:
+        body = [n for n in tree.body if isinstance(n, ast.ClassDef) and n.name == cls]
+        if len(body) != 1: raise Unsupported('class %s not found in %s' % (cls, path))
+        body = body[0].body
+    found = {n.name: n for n in body if isinstance(n, ast.FunctionDef)}
+    missing = [n for n in names if n not in found]
+    if missing: raise Unsupported('functions not found in %s: %s' % (path, missing))
+    return {n: found[n] for n in names}
+
+UNITS = [
+    ('locate_slice', 'dimarray/core/indexing.py', None,
+     ['is_numeric', '_is_ordered', 'is_increasing', 'is_increasing_equal', 'is_decreasing',
+      'is_decreasing_equal', 'is_monotonic', 'is_monotonic_equal', '_locate_slice_strict', 'locate_slice']),
+    ('cast', 'dimarray/core/indexing.py', None, ['_maybe_cast_type']),
+    ('cast_kind', 'dimarray/core/axes.py', None, ['_get_cast_kind']),
+]
+
+HEADER = '''(* GENERATED by harness/py2coq.py from %s -- do not edit *)
+From DA Require Import Prelude NDArray Array PyRT.
+Open Scope string_scope.
+'''
+
+def main():
+    ok = True
+    os.makedirs(os.path.join(VERIF, 'coq', 'Gen'), exist_ok=True)
+    for out, src, cls, names in UNITS:
+        target = os.path.join(VERIF, 'coq', 'Gen', out + '.v')
+        try:
+            u = Unit(load_functions(os.path.join(REPO, src), names, cls))
+            text = HEADER % src + '\n'.join(u.function(n) for n in u.order())
+        except Unsupported as e:
+            sys.stderr.write('py2coq: %s: UNSUPPORTED: %s\n' % (src, e))
+            ok = False
+            text = HEADER % src + '(* translation failed: %s *)\nDefinition translation_failed := tt.\n' % str(e).replace('*)', '* )')
+        old = open(target).read() if os.path.exists(target) else None
+        if old != text:
+            with open(target, 'w') as f: f.write(text)
+    sys.exit(0 if ok else 1)
+
+if __name__ == '__main__':
+    main()
